@@ -1,6 +1,5 @@
-import Lean
-import J5V.Walker.WF
-import J5V.Walker.Facts
+import J5V.Walker.WFj5a
+import J5V.Walker.WFj5b
 /-!
 # `j5Env.WF = true`, checked by the kernel
 
@@ -8,51 +7,16 @@ import J5V.Walker.Facts
 through UTF-8 DECODING of the literal (well-founded recursion over a byte array, ~0.25 s per schema
 name), and every conjunct of `Env.WF` forces every name. So a NORMAL FORM is proved once:
 `j5EnvNF` is the value of `j5Env` written out as a literal — the literal is produced by elaborators
-(`j5_…_lit%`: the elaborator evaluates the imported definition and quotes the value with `ToExpr`; no
-`unsafe`, no axiom) and `j5Env_nf : j5Env = j5EnvNF` is checked by the kernel (`decide +kernel`, in
-chunks of 27 schemas). Nothing here is copied by hand: when the facts are regenerated, the literal
-follows. `j5EnvNF.WF = true` then reduces in a few seconds.
+(`WFj5Lit.lean`) and `j5Env_nf : j5Env = j5EnvNF` is checked by the kernel (`decide +kernel`, in chunks of
+27 schemas, `WFj5a.lean` / `WFj5b.lean`). Nothing here is copied by hand: when the facts are regenerated,
+the literal follows. `j5EnvNF.WF = true` then reduces in a few seconds.
 -/
 namespace J5V.Walker
-open Lean Elab Term Meta
-
-deriving instance ToExpr for ScalarKind
-deriving instance ToExpr for FieldType
-deriving instance ToExpr for Property
-deriving instance ToExpr for Schema
-deriving instance ToExpr for EnumOption
-deriving instance ToExpr for EnumDef
-deriving instance ToExpr for Tag
-deriving instance ToExpr for ScalarSplit
-deriving instance ToExpr for BlockSpec
-deriving instance ToExpr for GivenBlock
-
-/-- the raw schemas `[a, a + 27)` converted -/
-def j5Chunk (a : Nat) : List Schema :=
-  ((J5V.Generated.Walkerschema.schemas.drop a).take 27).map convSchema
-
-elab "j5_root_lit%" : term => return toExpr j5Env.root
-elab "j5_chunk_lit%" n:num : term => return toExpr (j5Chunk n.getNat)
-elab "j5_rest_lit%" n:num : term =>
-  return toExpr ((J5V.Generated.Walkerschema.schemas.drop n.getNat).map convSchema)
-elab "j5_enums_lit%" : term => return toExpr j5Env.enums
-elab "j5_given_lit%" : term => return toExpr j5Env.given
 
 def j5EnvNF : Env :=
   ⟨j5_root_lit%,
    j5_chunk_lit% 0 ++ (j5_chunk_lit% 27 ++ (j5_chunk_lit% 54 ++ (j5_chunk_lit% 81 ++ j5_rest_lit% 108))),
    j5_enums_lit%, j5_given_lit%⟩
-
-theorem j5_root_nf : j5Env.root = j5_root_lit% := by decide +kernel
-theorem j5_enums_nf : j5Env.enums = j5_enums_lit% := by decide +kernel
-theorem j5_given_nf : j5Env.given = j5_given_lit% := by decide +kernel
-theorem j5_chunk0_nf : j5Chunk 0 = j5_chunk_lit% 0 := by decide +kernel
-theorem j5_chunk1_nf : j5Chunk 27 = j5_chunk_lit% 27 := by decide +kernel
-theorem j5_chunk2_nf : j5Chunk 54 = j5_chunk_lit% 54 := by decide +kernel
-theorem j5_chunk3_nf : j5Chunk 81 = j5_chunk_lit% 81 := by decide +kernel
-theorem j5_rest_nf :
-    (J5V.Generated.Walkerschema.schemas.drop 108).map convSchema = j5_rest_lit% 108 := by
-  decide +kernel
 
 theorem map_split (f : J5V.Generated.Walkerschema.Schema → Schema) (l : List _) (a : Nat) :
     (l.drop a).map f = ((l.drop a).take 27).map f ++ (l.drop (a + 27)).map f := by
@@ -74,10 +38,5 @@ theorem j5EnvNF_WF : j5EnvNF.WF = true := by decide +kernel
 
 /-- the j5 environment is well formed -/
 theorem j5Env_WF : j5Env.WF = true := by rw [j5Env_nf]; exact j5EnvNF_WF
-
-theorem j5EnvNF_mapNamesFresh : j5EnvNF.mapNamesFresh = true := by decide +kernel
-
-/-- assumption (2) of the spec-cache argument (`Spec.lean`) holds for j5 -/
-theorem j5Env_mapNamesFresh : j5Env.mapNamesFresh = true := by rw [j5Env_nf]; exact j5EnvNF_mapNamesFresh
 
 end J5V.Walker
